@@ -281,7 +281,14 @@ class Model:
                         "ir": r.choice(self.irs + [None])}
             if k == "blk_update" and B and I:
                 bs = r.sample(B, min(len(B), r.randint(1, 3)))
-                return {"op": k, "iv": r.choice(I), "ids": bs}
+                op = {"op": k, "iv": r.choice(I), "ids": bs}
+                if r.random() < 0.15:
+                    # one element of the batch cannot be a member: the call
+                    # is refused, wholly or (as a built-in's update may be)
+                    # after the elements before it; either way no lookup
+                    # may report a block that is not a member afterwards
+                    op["junk"] = r.choice(["None", "int", "proxy"])
+                return op
             if k.startswith("ex_") and I:
                 i = r.choice(I)
                 key = r.randint(0, 14) if self.regime == "small" or \
@@ -480,7 +487,12 @@ class Model:
             self.mods[op["id"]]["ir"] = op["ir"]
         elif k == "blk_update":
             for b in op["ids"]:
-                self.blks[b]["iv"] = op["iv"]
+                if op.get("junk"):
+                    # refused batch: the model follows what the blocks
+                    # themselves say (C04 judges whether that is coherent)
+                    self.blks[b]["iv"] = observed[b]
+                else:
+                    self.blks[b]["iv"] = op["iv"]
         elif k == "blk_pop":
             self.blks[observed]["iv"] = None
         elif k == "ex_set":
@@ -834,6 +846,23 @@ class Real:
             for b in op["ids"]:
                 self.ev_blk(b, model, 1)
                 self.pending_blk[op["iv"]] += 1
+            if op.get("junk"):
+                junk = {"None": None, "int": 5,
+                        "proxy": gt.ProxyBlock()}[op["junk"]]
+                args = [O[b] for b in op["ids"]] + [junk]
+                self.urnd.shuffle(args)
+                try:
+                    O[op["iv"]].blocks.update(args)
+                    self.ctx.count("refused_batch:accepted")
+                except Exception as e:
+                    self.ctx.count("refused_batch:refused")
+                idof = {id(v): kk for kk, v in O.items()}
+                out = {}
+                for b in op["ids"]:
+                    par = O[b].byte_interval
+                    out[b] = idof.get(id(par)) if par is not None and \
+                        O[b] in par.blocks else None
+                return out
             O[op["iv"]].blocks.update([O[b] for b in op["ids"]])
         elif k == "blk_pop":
             b = O[op["iv"]].blocks.pop()
